@@ -177,30 +177,18 @@ theorem inv_writeStructA (cfg : Cfg) (v : Dict) (w : WRes Dict) (s : St) (h : In
       · exact h
   · simp only [hv, Bool.not_false, if_true]; exact h
 
-theorem inv_readMemberA (cfg : Cfg) (m : String) (r : RRes Dict) (s : St) (h : Inv cfg s) (hm : m ∈ cfg.members) :
-    Inv cfg (readMemberA cfg m r s) := by
-  unfold readMemberA
-  have h1 := inv_readStructA cfg r s h
-  simp only
+theorem inv_readStructC (cfg : Cfg) (r : RRes Dict) (s : St) (h : Inv cfg s) : Inv cfg (readStructC cfg r s) := by
+  unfold readStructC
   split
-  · exact h1
-  · split
-    · exact h1
-    · exact inv_congr cfg (fine_struct _) (fine_mem _) (inv_announceMember cfg m _ _ h1 hm)
+  · exact inv_readStructA cfg r s h
+  · exact h
 
-theorem inv_writeMemberA (cfg : Cfg) (m : String) (v : Val) (w : WRes Dict) (r : RRes Dict) (s : St)
-    (h : Inv cfg s) (hm : m ∈ cfg.members) : Inv cfg (writeMemberA cfg m v w r s) := by
-  unfold writeMemberA
-  have h1 := inv_writeStructA cfg (s.struct.set m v) w s h
-  have h2 := inv_readMemberA cfg m r _ h1 hm
-  simp only
+theorem inv_writeStructC (cfg : Cfg) (v : Dict) (w : WRes Dict) (s : St) (h : Inv cfg s) :
+    Inv cfg (writeStructC cfg v w s) := by
+  unfold writeStructC
   split
-  · exact h1
-  · split
-    · exact h2
-    · split
-      · exact h2
-      · exact inv_congr cfg (fine_struct _) (fine_mem _) (inv_announceMember cfg m _ _ h2 hm)
+  · exact inv_writeStructA cfg v w s h
+  · exact inv_writeStructA cfg v .retNone s h
 
 theorem inv_readMemberB (cfg : Cfg) (m : String) (r : RRes Val) (s : St) (h : Inv cfg s) (hm : m ∈ cfg.members) :
     Inv cfg (readMemberB cfg m r s) := by
@@ -210,6 +198,35 @@ theorem inv_readMemberB (cfg : Cfg) (m : String) (r : RRes Val) (s : St) (h : In
     | fail k => exact h
     | ok x => exact inv_congr cfg (fine_struct _) (fine_mem _) (inv_announceMember cfg m x s h hm)
   · exact h
+
+theorem inv_readMemberA (cfg : Cfg) (m : String) (r : RRes Dict) (s : St) (h : Inv cfg s) (hm : m ∈ cfg.members) :
+    Inv cfg (readMemberA cfg m r s) := by
+  unfold readMemberA
+  have h1 := inv_readStructC cfg r s h
+  simp only
+  split
+  · exact h1
+  · split
+    · exact h1
+    · exact inv_congr cfg (fine_struct _) (fine_mem _) (inv_announceMember cfg m _ _ h1 hm)
+
+theorem inv_writeMemberA (cfg : Cfg) (m : String) (v : Val) (w : WRes Dict) (r : RRes Dict) (rB : RRes Val) (s : St)
+    (h : Inv cfg s) (hm : m ∈ cfg.members) : Inv cfg (writeMemberA cfg m v w r rB s) := by
+  unfold writeMemberA
+  have h1 := inv_writeStructC cfg (s.struct.set m v) w s h
+  have h2 : Inv cfg (readMemberC cfg m r rB (writeStructC cfg (s.struct.set m v) w s)) := by
+    unfold readMemberC
+    split
+    · exact inv_readMemberB cfg m rB _ h1 hm
+    · exact inv_readMemberA cfg m r _ h1 hm
+  simp only
+  split
+  · exact h1
+  · split
+    · exact h2
+    · split
+      · exact h2
+      · exact inv_congr cfg (fine_struct _) (fine_mem _) (inv_announceMember cfg m _ _ h2 hm)
 
 theorem inv_writeMemberB (cfg : Cfg) (m : String) (v : Val) (w : WRes Val) (s : St) (h : Inv cfg s)
     (hm : m ∈ cfg.members) : Inv cfg (writeMemberB cfg m v w s) := by
@@ -336,11 +353,11 @@ theorem inv_step (cfg : Cfg) (s : St) (op : Op) (h : Inv cfg s) : Inv cfg (step1
   cases op with
   | readStruct rA rB =>
     simp only [step]; split
-    · exact inv_readStructA cfg rA _ h'
+    · exact inv_readStructC cfg rA _ h'
     · exact inv_readStructB cfg rB _ h'
   | writeStruct v wA wB =>
     simp only [step]; split
-    · exact inv_writeStructA cfg v wA _ h'
+    · exact inv_writeStructC cfg v wA _ h'
     · exact inv_writeStructB cfg v wB _ h'
   | readMember m rA rB =>
     simp only [step]
@@ -352,13 +369,13 @@ theorem inv_step (cfg : Cfg) (s : St) (op : Op) (h : Inv cfg s) : Inv cfg (step1
       · exact inv_readMemberB cfg m rB _ h' hm
     · have : cfg.members.contains m = false := by simpa using hm
       simp only [this, Bool.not_false, if_true]; exact h'
-  | writeMember m v wA rA wB =>
+  | writeMember m v wA rA wB rB =>
     simp only [step]
     by_cases hm : m ∈ cfg.members
     · have : cfg.members.contains m = true := by simpa using hm
       simp only [this, Bool.not_true, Bool.false_eq_true, if_false]
       split
-      · exact inv_writeMemberA cfg m v wA rA _ h' hm
+      · exact inv_writeMemberA cfg m v wA rA rB _ h' hm
       · exact inv_writeMemberB cfg m v wB _ h' hm
     · have : cfg.members.contains m = false := by simpa using hm
       simp only [this, Bool.not_false, if_true]; exact h'
